@@ -25,11 +25,11 @@ var (
 
 // elem abstracts over SM2Element / SM2ScalarElement so that one monitor body
 // serves both fields.
-type elem interface {
+type zvElem interface {
 	bytes() []byte
 }
 
-type fieldOps struct {
+type zvFieldOps struct {
 	name     string
 	mod      *big.Int
 	set      func(b []byte) (interface{}, error)
@@ -53,9 +53,9 @@ type fieldOps struct {
 	aliasSub func(a, b interface{}) interface{} // b' := copy(b); b'.Sub(a, b')
 }
 
-func fieldP() *fieldOps {
+func zvFieldP() *zvFieldOps {
 	E := func(x interface{}) *SM2Element { return x.(*SM2Element) }
-	return &fieldOps{
+	return &zvFieldOps{
 		name: "p", mod: c16P,
 		set: func(b []byte) (interface{}, error) {
 			snap := append([]byte{}, b...)
@@ -98,9 +98,9 @@ func fieldP() *fieldOps {
 	}
 }
 
-func fieldN() *fieldOps {
+func zvFieldN() *zvFieldOps {
 	E := func(x interface{}) *SM2ScalarElement { return x.(*SM2ScalarElement) }
-	return &fieldOps{
+	return &zvFieldOps{
 		name: "n", mod: c16N,
 		set: func(b []byte) (interface{}, error) {
 			snap := append([]byte{}, b...)
@@ -171,7 +171,7 @@ func c16b32(v *big.Int) []byte {
 	return o
 }
 
-func limbsOf(v *big.Int) []uint64 {
+func zvLimbsOf(v *big.Int) []uint64 {
 	b := c16b32(v)
 	out := make([]uint64, 4)
 	for i := 0; i < 4; i++ {
@@ -184,7 +184,7 @@ func limbsOf(v *big.Int) []uint64 {
 	return out
 }
 
-func fromLimbs(l [4]uint64) *big.Int {
+func zvFromLimbs(l [4]uint64) *big.Int {
 	v := new(big.Int)
 	for i := 3; i >= 0; i-- {
 		v.Lsh(v, 64)
@@ -224,7 +224,7 @@ func TestVerifC16(t *testing.T) {
 			g := pool.Get(32, []int{hk.PlaceEnd, hk.PlaceStart, hk.PlaceMid}[i%3])
 			g.Writable()
 			v := new(big.Int).SetBytes(rng.Bytes(32))
-			f := []*fieldOps{fieldP(), fieldN()}[i%2]
+			f := []*zvFieldOps{zvFieldP(), zvFieldN()}[i%2]
 			if i%5 == 4 {
 				v.Sub(f.mod, big.NewInt(int64(1+i%3)))
 			}
@@ -243,13 +243,13 @@ func TestVerifC16(t *testing.T) {
 		}
 	}
 
-	for _, f := range []*fieldOps{fieldP(), fieldN()} {
+	for _, f := range []*zvFieldOps{zvFieldP(), zvFieldN()} {
 		f := f
 		m := f.mod
 		// carry-critical limb alphabet
 		lset := map[uint64]bool{0: true, 1: true, 2: true, 1<<32 - 1: true, 1 << 32: true, 1<<32 + 1: true, 1 << 63: true, 1<<63 - 1: true, 1<<64 - 1: true, 1<<64 - 2: true, 0xFFFFFFFF00000000: true, 0xFFFFFFFE00000000: true}
 		for _, v := range []*big.Int{m, new(big.Int).Sub(m, c16One), new(big.Int).Mod(c16B256, m), new(big.Int).Rsh(m, 1)} {
-			for _, l := range limbsOf(v) {
+			for _, l := range zvLimbsOf(v) {
 				lset[l] = true
 			}
 		}
@@ -279,7 +279,7 @@ func TestVerifC16(t *testing.T) {
 						if cnt%stride != 0 {
 							continue
 						}
-						v := fromLimbs([4]uint64{a, b, c, d})
+						v := zvFromLimbs([4]uint64{a, b, c, d})
 						vals = append(vals, v.Mod(v, m))
 					}
 				}
@@ -300,7 +300,7 @@ func TestVerifC16(t *testing.T) {
 
 		chk := func(op string, got interface{}, want *big.Int, operands ...*big.Int) {
 			// the internal (Montgomery) representation must itself be canonical: limbs < modulus
-			if fromLimbs(f.raw(got)).Cmp(m) >= 0 {
+			if zvFromLimbs(f.raw(got)).Cmp(m) >= 0 {
 				d := hk.D{"field": f.name, "op": op, "limbs": fmt.Sprintf("%x", f.raw(got))}
 				for i, o := range operands {
 					d[fmt.Sprintf("arg%d", i)] = hk.Hex(c16b32(o))
@@ -389,7 +389,7 @@ func TestVerifC16(t *testing.T) {
 				}
 				nops += 2
 			}
-			ls := limbsOf(a)
+			ls := zvLimbsOf(a)
 			cl := "random"
 			if lset[ls[3]] && lset[ls[0]] {
 				cl = fmt.Sprintf("top=%016x,low=%016x", ls[3], ls[0])
@@ -497,7 +497,7 @@ func TestVerifC16(t *testing.T) {
 								continue
 							}
 							l := [4]uint64{a, b, c, d}
-							if fromLimbs(l).Cmp(m) < 0 {
+							if zvFromLimbs(l).Cmp(m) < 0 {
 								raws = append(raws, l)
 							}
 						}
@@ -510,14 +510,14 @@ func TestVerifC16(t *testing.T) {
 				for _, lv := range []uint64{1, 2, 1<<64 - 1} {
 					var l [4]uint64
 					l[pos] = lv
-					if fromLimbs(l).Cmp(m) < 0 {
+					if zvFromLimbs(l).Cmp(m) < 0 {
 						raws = append(raws, l)
 					}
 				}
 			}
 			r2 := new(big.Int).Mod(new(big.Int).Mul(c16B256, c16B256), m)
 			limbs4 := func(v *big.Int) [4]uint64 {
-				ls := limbsOf(v)
+				ls := zvLimbsOf(v)
 				return [4]uint64{ls[0], ls[1], ls[2], ls[3]}
 			}
 			chkRaw := func(op string, got interface{}, want *big.Int, A, B [4]uint64) {
@@ -529,7 +529,7 @@ func TestVerifC16(t *testing.T) {
 			hk.Parallel(len(raws), func(i int) {
 				lr := hk.NewRNG(hk.Seed(), fmt.Sprintf("c16raw/%s/%d", f.name, i))
 				A := raws[i]
-				ai := fromLimbs(A)
+				ai := zvFromLimbs(A)
 				ea := f.setRaw(A)
 				chkRaw("square", f.square(ea), mod(new(big.Int).Mul(new(big.Int).Mul(ai, ai), rinv)), A, A)
 				chkRaw("mul-alias", f.aliasMul(ea), mod(new(big.Int).Mul(new(big.Int).Mul(ai, ai), rinv)), A, A)
@@ -565,7 +565,7 @@ func TestVerifC16(t *testing.T) {
 					default:
 						B = limbs4(mod(new(big.Int).SetBytes(lr.Bytes(32))))
 					}
-					bi := fromLimbs(B)
+					bi := zvFromLimbs(B)
 					eb := f.setRaw(B)
 					chkRaw("mul", f.mul(ea, eb), mod(new(big.Int).Mul(new(big.Int).Mul(ai, bi), rinv)), A, B)
 					chkRaw("mul-swapped", f.mul(eb, ea), mod(new(big.Int).Mul(new(big.Int).Mul(ai, bi), rinv)), B, A)
@@ -594,7 +594,7 @@ func TestVerifC16(t *testing.T) {
 			consts := map[string]*big.Int{"m": m, "(m+1)/2": new(big.Int).Rsh(new(big.Int).Add(m, c16One), 1), "(m-1)/2": new(big.Int).Rsh(m, 1), "2^256-m": new(big.Int).Sub(c16B256, m),
 				"2^256 mod m": new(big.Int).Mod(c16B256, m), "2^512 mod m": new(big.Int).Mod(new(big.Int).Mul(c16B256, c16B256), m), "(m+1)/4": new(big.Int).Rsh(new(big.Int).Add(m, c16One), 2), "2^255": new(big.Int).Lsh(c16One, 255)}
 			limbs4 := func(v *big.Int) [4]uint64 {
-				ls := limbsOf(v)
+				ls := zvLimbsOf(v)
 				return [4]uint64{ls[0], ls[1], ls[2], ls[3]}
 			}
 			nTies := 0
@@ -629,10 +629,10 @@ func TestVerifC16(t *testing.T) {
 								}
 							}
 						}
-						if fromLimbs(l).Cmp(m) >= 0 {
+						if zvFromLimbs(l).Cmp(m) >= 0 {
 							continue
 						}
-						ai := fromLimbs(l)
+						ai := zvFromLimbs(l)
 						rinv := new(big.Int).ModInverse(c16B256, m)
 						chkT := func(op string, got interface{}, want *big.Int) {
 							if f.raw(got) != limbs4(want) {
@@ -682,7 +682,7 @@ func TestVerifC16(t *testing.T) {
 				return t.Rsh(t, 256)
 			}
 			limbs4 := func(v *big.Int) [4]uint64 {
-				ls := limbsOf(v)
+				ls := zvLimbsOf(v)
 				return [4]uint64{ls[0], ls[1], ls[2], ls[3]}
 			}
 			twoM := new(big.Int).Lsh(m, 1)
@@ -694,7 +694,7 @@ func TestVerifC16(t *testing.T) {
 					for _, c := range alpha {
 						for _, d := range alpha {
 							for carry := 0; carry < 2; carry++ {
-								T := fromLimbs([4]uint64{a, b, c, d})
+								T := zvFromLimbs([4]uint64{a, b, c, d})
 								if carry == 1 {
 									T.Add(T, R)
 								}
@@ -786,7 +786,7 @@ func TestVerifC16(t *testing.T) {
 			}
 			nonCanon = append(nonCanon, new(big.Int).SetBytes(b))
 			for j := i + 1; j < 32; j++ {
-				b[j] = byte(lrand(rng))
+				b[j] = byte(zvLrand(rng))
 			}
 			nonCanon = append(nonCanon, new(big.Int).SetBytes(b))
 		}
@@ -885,4 +885,4 @@ func TestVerifC16(t *testing.T) {
 	}
 }
 
-func lrand(r *hk.RNG) int { return r.Intn(256) }
+func zvLrand(r *hk.RNG) int { return r.Intn(256) }
